@@ -340,6 +340,59 @@ class NPShim:
     def abs(self, v):
         return abs(v)
 
+    def _flat(self, a):
+        out = []
+        for v in a:
+            if isinstance(v, (list, SArr, _np.ndarray)):
+                out += self._flat(v)
+            else:
+                out.append(v)
+        return out
+
+    def max(self, a, *k, **kw):
+        if not isinstance(a, SArr):
+            return _np.max(a, *k, **kw)
+        vals = self._flat(a)
+        r = vals[0]
+        for v in vals[1:]:
+            if v > r:
+                r = v
+        return r
+
+    def min(self, a, *k, **kw):
+        if not isinstance(a, SArr):
+            return _np.min(a, *k, **kw)
+        vals = self._flat(a)
+        r = vals[0]
+        for v in vals[1:]:
+            if v < r:
+                r = v
+        return r
+
+    amax = max
+    amin = min
+
+    def ptp(self, a, *k, **kw):
+        if not isinstance(a, SArr):
+            return _np.ptp(a, *k, **kw)
+        return self.max(a) - self.min(a)
+
+    def all(self, a, *k, **kw):
+        if not isinstance(a, SArr):
+            return _np.all(a, *k, **kw)
+        for v in self._flat(a):
+            if not v:
+                return False
+        return True
+
+    def any(self, a, *k, **kw):
+        if not isinstance(a, SArr):
+            return _np.any(a, *k, **kw)
+        for v in self._flat(a):
+            if v:
+                return True
+        return False
+
     def isclose(self, a, b, rtol=1e-05, atol=1e-08):
         raise HarnessError('np.isclose not modelled')
 
